@@ -15,7 +15,7 @@ PREAMBLE = (b'require ["fileinto","reject","envelope","body","vacation","vacatio
 
 VOCAB = [
     b";", b",", b"{", b"}", b"(", b")", b"[", b"]",
-    b'"a"', b'"b"', b"10", b"1K", b"text:\nx\n.\n",
+    b'"a"', b'"%b"', b"10", b"1K", b"text:\n%x\n.\n",
     b":is", b":contains", b":comparator", b'"i;octet"', b":count", b'"gt"', b":regex", b":copy", b":create",
     b":flags", b":over", b":localpart", b":raw", b":content", b":zone", b":originalzone", b":subject", b":days", b":seconds", b":mime", b":foo",
     b"if", b"elsif", b"else", b"require", b"stop", b"keep", b"fileinto", b"redirect", b"reject", b"addflag",
@@ -33,6 +33,7 @@ CORPUS = [
     b'require "imap4flags"; keep :flags "x";', b'require "imap4flags"; if hasflag "a" :comparator { keep; }',
     b'require ["relational","imap4flags"]; if hasflag "a" :count { keep; }', b"/** doc **/ keep; /* b */ stop;",
     b'require "fileinto"; fileinto "INBOX" :copy;', b"keep :nosuchtag;", b'if true { keep; } else', b'require "fileinto"; fileinto "INBOX"',
+    b'"100%"', b'stop "50% discount";', b'discard text:\n20% off\n.\n;', b'keep "%s" "%(x)s" {',
     b'require "regex"; if header :REGEX "a" "b" {keep;}', b'if header :REGEX "a" "b" {keep;}', b'vacation :SECONDS 5 "x";',
 ]
 
@@ -154,6 +155,9 @@ def stream_generated(rec, table, nscripts, edits_per=6, tag="gen"):
         metas.append({"stream": tag, "valid": True, "need": sorted(need), "ntok": len(toks), "tokens": [t.hex() for t in toks], "nreq": nreq})
         if i < nscripts // 2:
             for kind, pos, mt in gen_scripts.single_edits(toks, VOCAB, r, limit=edits_per):
+                texts.append(gen_scripts.render(mt))
+                metas.append({"stream": tag + "-edit", "edit": kind, "pos": pos})
+            for kind, pos, mt in gen_scripts.structural_edits(toks, r, limit=2 * edits_per):
                 texts.append(gen_scripts.render(mt))
                 metas.append({"stream": tag + "-edit", "edit": kind, "pos": pos})
     impl, ys, model = eval_both(texts)
